@@ -123,6 +123,7 @@ package atree
 //@   pure
 
 //@ iface WrapperStorable.UnwrapAtreeStorable() (s)
+//@   ensures s == unw(recv)
 //@   pure
 
 //@ # registering a child handle: records the child's index and installs the updater closure on the child; nothing else changes
